@@ -37,6 +37,8 @@ pub fn start_election(dbs: &Arc<Databases>) {
              */
             while opp.is_none() && start_time < *NUN_ELECTION_TIMEOUT {
                 log::debug!("Waiting for opp to be registered");
+                #[cfg(feature = "verif_hooks")]
+                crate::verif::yield_point("start_election:wait-registered");
                 thread::sleep(time::Duration::from_millis(2));
                 start_time = start_time + 2;
                 opp = dbs.get_pending_opp_copy(id);
@@ -56,6 +58,8 @@ pub fn start_election(dbs: &Arc<Databases>) {
                     log::info!("No longer eligible to be primary, will stop election");
                     return;
                 }
+                #[cfg(feature = "verif_hooks")]
+                crate::verif::yield_point("start_election:wait-acks");
                 thread::sleep(time::Duration::from_millis(2));
                 start_time = start_time + 2;
                 opp = dbs.get_pending_opp_copy(id);
@@ -79,6 +83,8 @@ pub fn start_election(dbs: &Arc<Databases>) {
 
             log::info!("Election acks received");
 
+            #[cfg(feature = "verif_hooks")]
+            crate::verif::yield_point("start_election:final-wait");
             thread::sleep(time::Duration::from_millis(100)); // Will wait for the ack
             if dbs.is_eligible() {
                 log::info!("winning the election");
